@@ -294,6 +294,8 @@ def unit_excel_workbooks():
                 import decimal as _decimal
                 yield "refusals", [["a1", "b1", "c1"], ["a2", datetime.datetime(2020, 1, 2, 3, 4, 5, tzinfo=datetime.timezone.utc), "c2"], ["a3", "b3", "c3"], ["a4", datetime.time(3, 4, 5, tzinfo=datetime.timezone.utc), "c4"],
                                    ["a5", _decimal.Decimal("sNaN"), "c5"], ["a6", float("inf"), "c6"], ["a7", "b7", "c7"]]
+                # ... and a number whose digits Python refuses to print (more than 4300): the refusal has to be sayable
+                yield "refusals", [["a1", "b1", "c1"], ["a2", 10 ** 5000, "c2"], ["a3", "b3", "c3"], ["a4", -(10 ** 5000), "c4"], ["a5", "b5", "c5"]]
             def rt_check(table):
                 from cutplace import errors
                 n[0] += 1; path = os.path.join(tmp, "r%d.xlsx" % n[0])
